@@ -447,7 +447,7 @@ func runC12(t *testing.T, cases []map[string]interface{}, ev *vEvents) {
 		released := r.Status == 200 && (tr.IDToken != "" || tr.AccessToken != "")
 		tk := map[string]interface{}{"iss": "", "aud": []string{}, "sub": "", "nonce": "", "verifies": false, "expafterauth": 0, "userinfo": ""}
 		if released {
-			if tok, err := jwt.ParseSigned(tr.IDToken, []jose.SignatureAlgorithm{jose.RS256, jose.ES256, jose.EdDSA}); err == nil {
+			if tok, err := jwt.ParseSigned(tr.IDToken, vAllAlgs); err == nil {
 				var idc openIDConnectIDToken
 				for _, k := range jwks.Keys {
 					if tok.Claims(k.Key, &idc) == nil {
